@@ -205,7 +205,11 @@ CHECKS["C13"] = dict(
           "no-op; stored energy = half the sum of terminal value x reaction when no free row carries a source (W = 1/2 sum "
           "V q) and = half of A.f for zero prescribed values (W = 1/2 int A.J). Tied to the real post-processors by "
           "selection sequences (blocks, groups, clears, repeats) run through femmcli whose area / energy integrals must be the "
-          "sum over exactly the labels the model leaves selected. Decided on the real tools for all three physics, planar and "
+          "sum over exactly the labels the model leaves selected; for electrostatics the integrands themselves are modelled "
+          "(Model/PostIntE.lean: element field, stored D, recovered E, energy / area / volume contribution, same operation "
+          "order) and every area / volume / energy integral femmcli prints is compared with the model fed the solution-file "
+          "mesh (4e-15), with theorems that the energy integrand is the element's field energy density (non-negative) and the "
+          "element field minus the gradient of an affine potential. Decided on the real tools for all three physics, planar and "
           "axisymmetric: additivity over random subsets and orders (1e-15), block area / volume vs the drawn regions and "
           "revolved volumes (1e-15), contour length vs drawn length, electrostatic energy vs half sum V*q (1e-12), "
           "magnetostatic energy vs half int A.J and coenergy."),
